@@ -1,2 +1,87 @@
-(* C20 -- placeholder until the feed theorems are in place *)
-From Nodis Require Import Base.Bytes.
+(* C20  The change feed: replaying it reproduces the primary.  Statements only.
+   new_pops d d' = the records a step from d to d' emitted (oldest first); apply_pop = ApplyPatch
+   on a replica (coq/Model/Feed.v); logical = live names with deadline and value. *)
+From Nodis Require Import Base.Bytes Model.Num Model.FMap Model.DsStr Model.Db Model.Api Model.Feed Model.Handlers Model.Conn
+     Proofs.DbProofs Proofs.FeedProofs Properties.C12.
+From Coq Require Import ZArith List Bool.
+Import ListNotations.
+Local Open Scope Z_scope.
+
+(* commands that change nothing emit nothing: every read leaves the list of records as it was *)
+Theorem C20_reads_emit_nothing : forall k now d,
+  res_events (api_get k now d) d = events d /\
+  events (snd (api_type k now d)) = events d /\
+  (forall ks, events (snd (api_exists ks now d)) = events d) /\
+  (forall A (dflt : A) f, res_events (api_hread k dflt f now d) d = events d) /\
+  (forall A (dflt : A) f, res_events (api_sread k dflt f now d) d = events d) /\
+  (forall A (dflt : A) f, res_events (api_zread k dflt f now d) d = events d).
+Proof.
+  intros k now d. split; [exact (get_emits_nothing k now d)|]. split; [exact (type_emits_nothing k now d)|].
+  split; [intro ks; exact (exists_emits_nothing ks now d)|]. split; [intros; apply hread_emits_nothing|].
+  split; [intros; apply sread_emits_nothing | intros; apply zread_emits_nothing].
+Qed.
+Print Assumptions C20_reads_emit_nothing.
+
+(* SET from any state emits exactly one record, and that record, applied to ANY replica whose key
+   is not of another type, makes GET on the replica return the value written on the primary *)
+Theorem C20_set_replays : forall k v keep now d d',
+  api_set k v keep now d = Ok tt d' ->
+  new_pops d d' = [PSet k v keep 0] /\
+  forall r now', match api_set k v false now r with
+                 | Ok _ r' => apply_pop (PSet k v false 0) now r = Some r' /\
+                              fst (match api_get k now' r' with Ok x _ => (Some x, tt) | _ => (None, tt) end) = Some (Some v)
+                 | Panic _ => True
+                 | Unm => False
+                 end.
+Proof.
+  intros k v keep now d d' H. split; [exact (set_record k v keep now d d' H)|].
+  intros r now'. pose proof (set_then_get k v false now now' r) as G.
+  unfold apply_pop. destruct (api_set k v false now r) as [u r'| |]; [|exact I|exact G].
+  split; [reflexivity|exact (G eq_refl)].
+Qed.
+Print Assumptions C20_set_replays.
+
+(* whole histories replayed by the kernel: run the commands on a primary, collect its records,
+   apply them in order to an empty replica, compare the logical states *)
+Definition run_cmds (cmds : list (bytes * list bytes)) : server :=
+  fold_left (fun s c => match serve 0%nat (fst c) (snd c) 1000 s with Some (s', _) => s' | None => s end) cmds (server_new false).
+Definition replay (cmds : list (bytes * list bytes)) : option (list (bytes * Z * option value)) :=
+  let p := s_db (run_cmds cmds) in
+  match apply_pops (new_pops (db_empty false) p) 1000 (db_empty false) with
+  | Some r => Some (logical 1000 r)
+  | None => None
+  end.
+Definition primary (cmds : list (bytes * list bytes)) := logical 1000 (s_db (run_cmds cmds)).
+Definition c (l : list Z) := b l.
+Definition hist1 : list (bytes * list bytes) :=
+  [ (SET, [kk; vv]); (c [65;80;80;69;78;68], [kk; c [49]]);                      (* APPEND k 1 *)
+    (c [82;80;85;83;72], [c [108]; c [97]; c [98]; c [97]; c [99]; c [97]]);      (* RPUSH l a b a c a *)
+    (c [76;82;69;77], [c [108]; c [45;50]; c [97]]);                              (* LREM l -2 a *)
+    (c [76;80;79;80], [c [108]]);                                                 (* LPOP l *)
+    (c [72;83;69;84], [c [104]; c [102]; c [49]]);                                (* HSET h f 1 *)
+    (c [72;73;78;67;82;66;89], [c [104]; c [102]; c [52;49]]);                    (* HINCRBY h f 41 *)
+    (c [83;65;68;68], [c [115]; c [97]; c [98]]); (c [83;82;69;77], [c [115]; c [97]]);   (* SADD s a b ; SREM s a *)
+    (c [90;65;68;68], [c [122]; c [49]; c [97]; c [50]; c [98]]);                 (* ZADD z 1 a 2 b *)
+    (c [90;73;78;67;82;66;89], [c [122]; c [53]; c [97]]);                        (* ZINCRBY z 5 a *)
+    (c [69;88;80;73;82;69], [kk; c [49;48;48]]);                                  (* EXPIRE k 100 *)
+    (c [73;78;67;82], [c [110]]); (c [68;69;76], [c [110]]);                      (* INCR n ; DEL n *)
+    (c [82;69;78;65;77;69], [c [104]; c [104;50]]) ].                             (* RENAME h h2 *)
+Example C20_history_replayed : replay hist1 = Some (primary hist1) /\ length (primary hist1) = 5%nat.
+Proof. split; vm_compute; reflexivity. Qed.
+
+(* SMOVE emits only the SAdd on the destination: the replica keeps the member in the source
+   (known finding, replayed on the implementation by the check) *)
+Definition hist_smove : list (bytes * list bytes) :=
+  [ (c [83;65;68;68], [c [115]; c [97]; c [98]]); (c [83;77;79;86;69], [c [115]; c [116]; c [97]]) ].
+Theorem C20_smove_refuted : replay hist_smove <> Some (primary hist_smove).
+Proof. vm_compute. discriminate. Qed.
+Print Assumptions C20_smove_refuted.
+
+(* order matters: the same two records applied in the other order leave a different replica, so a
+   feed that delivers out of emission order (each notification has its own goroutine) is not safe *)
+Theorem C20_order_matters :
+  let p1 := PSet kk vv false 0 in let p2 := PSet kk (c [119]) false 0 in
+  option_map (logical 1000) (apply_pops [p1; p2] 1000 (db_empty false))
+  <> option_map (logical 1000) (apply_pops [p2; p1] 1000 (db_empty false)).
+Proof. vm_compute. discriminate. Qed.
+Print Assumptions C20_order_matters.
